@@ -4,6 +4,7 @@ import (
 	"flag"
 	"fmt"
 	"sort"
+	"strconv"
 	"strings"
 
 	"github.com/EliCDavis/jbtf"
@@ -309,6 +310,28 @@ func (i *Instance) EncodeToAppSchema(appSchema *schema.App, encoder *jbtf.Encode
 	appSchema.Metadata = i.metadata.Data()
 }
 
+// dependencyNameLess orders dependencies by input name. Elements of an array
+// input ("Values.10") are ordered by their index and not as strings, since
+// loading appends them to the array in the order they are listed.
+func dependencyNameLess(a, b string) bool {
+	aName, aIndex := splitArrayInputName(a)
+	bName, bIndex := splitArrayInputName(b)
+	if aName != bName {
+		return aName < bName
+	}
+	return aIndex < bIndex
+}
+
+func splitArrayInputName(name string) (string, int) {
+	lower := strings.ToLower(name)
+	if dot := strings.LastIndex(lower, "."); dot != -1 {
+		if index, err := strconv.Atoi(lower[dot+1:]); err == nil {
+			return lower[:dot], index
+		}
+	}
+	return lower, -1
+}
+
 func (i *Instance) buildNodeGraphInstanceSchema(node nodes.Node, encoder *jbtf.Encoder) schema.AppNodeInstance {
 
 	nodeInstance := schema.AppNodeInstance{
@@ -325,7 +348,7 @@ func (i *Instance) buildNodeGraphInstanceSchema(node nodes.Node, encoder *jbtf.E
 	}
 
 	sort.Slice(nodeInstance.Dependencies, func(i, j int) bool {
-		return strings.ToLower(nodeInstance.Dependencies[i].Name) < strings.ToLower(nodeInstance.Dependencies[j].Name)
+		return dependencyNameLess(nodeInstance.Dependencies[i].Name, nodeInstance.Dependencies[j].Name)
 	})
 
 	if param, ok := node.(CustomGraphSerialization); ok {
